@@ -4,11 +4,13 @@ import (
 	"errors"
 	"fmt"
 	"math/rand"
+	"os"
 	"runtime"
 	"strings"
 	"testing"
 	"time"
 
+	http2 "github.com/dgrr/http2"
 	"github.com/valyala/fasthttp"
 
 	"h2v/rt"
@@ -25,6 +27,10 @@ func TestC12(t *testing.T) {
 		"Monitors per request: exactly one kind of outcome (never nil and an error both), nil only together with exactly the response the server delivered completely, every request resolved once the connection is dead or closed and 30 virtual seconds have passed; no runtime panic surfacing as LastErr, the worker process survives, and no goroutine of the connection is left. "+
 		"Distinct = distinct (family, sub-kind, cut/mutation class, callers, ending).",
 		"virtual time (synctest) for 'resolved within a bounded time after the connection died'", "at connection level there is no per-request timeout (it lives in RoundTrip): silence is bounded by the ping check")
+	// RoundTrip pools its per-request Ctx objects, each with a timer and a channel of the bubble that made them: the
+	// pool hook keeps them from travelling into a later bubble (withholding is always legal for a sync.Pool)
+	http2.VerifSetPoolHook(func(kind string, obj any, acquire bool) bool { return kind == "clientctx" && !acquire })
+	defer http2.VerifSetPoolHook(nil)
 	n := r.Pick(3000, 150000)
 	for i := 0; i < n; i++ {
 		id := fmt.Sprintf("x%d", i)
@@ -32,7 +38,19 @@ func TestC12(t *testing.T) {
 			continue
 		}
 		r.Progress(id, "")
-		c12Scenario(r, t, id, r.Rand(id))
+		t0 := time.Now()
+		// the family is chosen by a hash of the case id, so that the slow real-time cases spread over all shards
+		switch h := vf.Hash("c12-family", id); {
+		case h%300 == 7:
+			c12WedgedClose(r, t, id, r.Rand(id))
+		case h%6 == 5:
+			c12RoundTrip(r, t, id, r.Rand(id))
+		default:
+			c12Scenario(r, t, id, r.Rand(id))
+		}
+		if d := time.Since(t0); d > 3*time.Second && os.Getenv("VERIF_DEBUG") != "" {
+			fmt.Printf("SLOW %s %v\n", id, d)
+		}
 	}
 }
 
@@ -409,6 +427,13 @@ func c12Scenario(r *vf.Run, t *testing.T, id string, rng *rand.Rand) {
 			var re runtime.Error
 			if errors.As(le, &re) || strings.Contains(le.Error(), "runtime error") || strings.Contains(le.Error(), "index out of range") || strings.Contains(le.Error(), "nil pointer") {
 				fail("panic-surfaced", "the connection's LastErr is a recovered panic: "+le.Error())
+			}
+		}
+		if ending == 2 {
+			// Close was called 30 virtual seconds ago and the server is still connected and silent: the connection's
+			// own goroutines must be gone without the peer's help (Finish, below, disconnects the peer)
+			if left := rt.GoroutinesOf(id, "github.com/dgrr/http2.(*Conn)"); len(left) > 0 {
+				fail("goroutine-leak-after-close", fmt.Sprintf("family %s/%s: %d goroutine(s) of the connection are still alive 30 virtual seconds after Close, while the server is connected and silent:\n%s", family, class, len(left), strings.Join(left, "\n")))
 			}
 		}
 		leaked := e.Finish()
